@@ -143,6 +143,9 @@ func run(prop, tier string) int {
 		fmt.Fprintf(os.Stderr, "no check registered for %s\n", prop)
 		return 2
 	}
+	if ch.After != nil && os.Getenv("VERIF_WORKER") == "" {
+		defer ch.After()
+	}
 	if n := workersFor(prop, tier); n > 1 {
 		return runWorkers(prop, tier, n)
 	}
